@@ -7,3 +7,5 @@ func TimeFromNanos(n int64) time.Time { return time.Unix(0, n) }
 
 // NanosOfTime is the inverse of TimeFromNanos.
 func NanosOfTime(t time.Time) int64 { return t.UnixNano() }
+
+func nativeDelay() { time.Sleep(40 * time.Millisecond) }
